@@ -162,6 +162,44 @@ CHECKS = {
         technique="TLA+ spec (BlockTable.tla) model-checked with TLC; TLC-generated histories replayed under ASan and validated with "
                   "TraceTables.tla",
     ),
+    "C14": dict(
+        category="model_checking",
+        text=("Writer.tla models the output stack at system-call level (staging, write calls in any split, finish, close, rename); "
+              "TLC checks that every closed output holds exactly the units handed to it for named/descriptor x compressed/plain "
+              "scenarios with rotations. Recorded runs of the real gzip/xz/plain writers (chunk sequences 1 B..8 MiB quick / 32 MiB "
+              "thorough; zero, text, random, empty; rotation points; file-name and descriptor targets) and of the exporter end to "
+              "end are validated by TLC: each closed output must be a single complete stream (python zlib/lzma, independent) with "
+              "the right suffix whose content is exactly the chunk sequence / record sequence of the scenario."),
+        design_ref="DESIGN.md section 3 / C14",
+        note=TRUST + "python3 zlib/lzma; the driver's memcmp of decompressed data against the chunks it generated.",
+        technique="TLA+ spec (Writer.tla) model-checked with TLC + TLC trace validation of recorded writer/exporter runs (TraceWriter.tla)",
+    ),
+    "C15": dict(
+        category="model_checking",
+        text=("Writer.tla has an always-enabled Crash action; TLC checks in every reachable state (all interleavings, all crash "
+              "points) that a file under a final name is pre-existing or a complete output, for plain/compressed named outputs "
+              "with rotations and rotation onto an existing name; seeded deviations (rename before the last writes, writing to the "
+              "final name) must be found. On the real code every scenario is re-run in a child process killed immediately before "
+              "its k-th write/writev/rename for every k; TLC validates the system-call log (data only to .part, rename only "
+              ".part -> final, nothing after the rename) and every post-crash directory."),
+        design_ref="DESIGN.md section 3 / C15",
+        note=TRUST + "interposition of write/writev/rename in the driver executable; crash = _exit before the call (no power-loss semantics).",
+        technique="TLA+ spec (Writer.tla) model-checked with TLC over all crash points + crash-point enumeration on the real code "
+                  "validated by TLC (TraceWriter.tla)",
+    ),
+    "C16": dict(
+        category="fault_enumeration",
+        text=("Writer.tla with a failing write system call (single or persistent) at every index: invariant 'no rotate returns "
+              "normally for an output that lost bytes'. On the real exporter every write/writev of every scenario (plain/gzip/xz x "
+              "file-name/descriptor, rotations) is made to fail with ENOSPC, EIO or a short count, once and persistently; TLC walks "
+              "the ordered log of API outcomes and system calls and checks reporting and the documented recovery (rotate to a "
+              "healthy destination, write_block, complete valid file with the failed block's records). Three genuine defects of the "
+              "pinned code are recorded as known findings (known_findings.json); any other violation is reported."),
+        design_ref="DESIGN.md section 3 / C16 and section 5",
+        note=TRUST + "interposition of write/writev; destruction is outside the guarantee.",
+        technique="TLA+ spec (Writer.tla) model-checked with TLC over all fault points + fault-point enumeration on the real code "
+                  "validated by TLC (TraceWriter.tla)",
+    ),
 }
 
 PENDING_REASON = "check not built yet in this revision (specification in progress); see DESIGN.md"
